@@ -236,7 +236,7 @@ def fixed_noise(idx: ProgramIndex, rep: Report):
                 # several re-bindings: one of them bounds the value, the others only convert the same value (dtype / device)
                 bounding_defs = [d for d in defs if bounded_expr(d)]
                 others = [d for d in defs if not bounded_expr(d)]
-                if bounding_defs and all(chain(d) == "%s.noise" % sn or ({x.id for x in ast.walk(d) if isinstance(x, ast.Name)} <= {e.id, sn} and isinstance(d, ast.Call) and isinstance(d.func, ast.Attribute) and d.func.attr in ("to", "type_as", "float", "double")) for d in others):
+                if bounding_defs and all(chain(d) == "%s.noise" % sn or ({x.id for x in ast.walk(d) if isinstance(x, ast.Name)} <= {e.id, sn, "torch"} and isinstance(d, ast.Call) and isinstance(d.func, ast.Attribute) and d.func.attr in ("to", "type_as", "float", "double")) for d in others):
                     e = bounding_defs[0]  # (the stored noise is bounded already: re-binding the local to it keeps the clause)
         if chain(e) == "%s.noise" % sn or bounded_expr(e):
             continue
